@@ -553,6 +553,18 @@ func checkHist(ca *checkArgs) int {
 				unreachedPerBuild = append(unreachedPerBuild, k+" ("+bname+" build)")
 			}
 		}
+		// a run that meets a violation of another property stops there without an
+		// alarm (attribution rule A1); if that happens to most runs, this check has
+		// looked at very little and must not answer "held"
+		var foreign int64
+		for k, v := range b.stats.C {
+			if strings.HasPrefix(k, "runs_ended_by_foreign_violation/") {
+				foreign += v
+			}
+		}
+		if b.runs >= 20 && foreign*2 > int64(b.runs) && len(b.violations) == 0 {
+			problems = append(problems, fmt.Sprintf("%d of %d runs under build %s were cut short by a violation of another property (see runs_ended_early_by_violation_of_other_property in the evidence): the tree breaks that property so often that this check explored too little to answer", foreign, b.runs, bname))
+		}
 		perBuild[bname] = b.runs
 		total.stats.merge(b.stats)
 		total.runs += b.runs
